@@ -45,7 +45,7 @@ class C07(Prop):
 
     def gen(self, tier, rng):
         maxlen = 40 if tier == "quick" else 200
-        reps = 40 if tier == "quick" else 300
+        reps = 40 if tier == "quick" else 1200
         for rep in range(reps):
             for et in FLOATS:
                 fp = FP(et)
@@ -92,6 +92,11 @@ class C07(Prop):
             mk_num_case("weighted_std", "f64", [([3], [5.0, 7.0, 9.0], contiguous([3])), ([3], [0.0, 0.0, 2.0], contiguous([3]))], z, ddof=0.0),
             # K3 witness (known finding): weights [1, -1, 1]
             mk_num_case("weighted_var", "f64", [([3], [5.0, 7.0, 9.0], contiguous([3])), ([3], [1.0, -1.0, 1.0], contiguous([3]))], z, ddof=0.0),
+            # D6 witness (fixed): a weight that absorbs the accumulated weight (fl(2^-100 + 1) = 1) made the running
+            # mean overshoot the observation, so the increment w (x - m)(x - m') was negative: variance -5.55e-17
+            mk_num_case("weighted_var", "f64", [([2], [-1.0, 1.5 * 2.0 ** -53], contiguous([2])), ([2], [2.0 ** -100, 1.0], contiguous([2]))], z, ddof=0.0),
+            mk_num_case("weighted_std", "f64", [([2], [-1.0, 1.5 * 2.0 ** -53], contiguous([2])), ([2], [2.0 ** -100, 1.0], contiguous([2]))], z, ddof=0.0),
+            mk_num_case("weighted_var", "f32", [([2], [-1.0, 1.5 * 2.0 ** -24], contiguous([2])), ([2], [2.0 ** -60, 1.0], contiguous([2]))], enc_vals("f32", [0.0])[0], ddof=0.0),
         ]
 
     def parse(self, case):
